@@ -79,7 +79,7 @@ func vo(key string) ref.OptDecl {
 	return ref.OptDecl{Key: key, Names: []string{"-" + key, "--" + key + key}, Flag: false}
 }
 
-var lvlKinds []*lvlKind
+var lvlKinds map[int]*lvlKind
 
 func init() {
 	mk := func(spec string, d *ref.Decl, ints ...string) *lvlKind {
@@ -104,25 +104,27 @@ func init() {
 		}
 		return k
 	}
-	lvlKinds = []*lvlKind{
+	lvlKinds = map[int]*lvlKind{
 		0: mk("", &ref.Decl{}),
 		1: mk("[-f]", &ref.Decl{Opts: []ref.OptDecl{fl("f")}}),
 		2: mk("X", &ref.Decl{Args: []string{"X"}}),
 		3: mk("[-f] X", &ref.Decl{Opts: []ref.OptDecl{fl("f")}, Args: []string{"X"}}),
 		4: mk("[X]", &ref.Decl{Args: []string{"X"}}),
 		5: mk("-f X...", &ref.Decl{Opts: []ref.OptDecl{fl("f")}, Args: []string{"X"}}),
-		6: mk("[-i] [-o]", &ref.Decl{Opts: []ref.OptDecl{vo("i"), vo("o")}}, "i"),
+		6: mk("[-i...] [-o]", &ref.Decl{Opts: []ref.OptDecl{vo("i"), vo("o")}}, "i"),
 		7: mk("N", &ref.Decl{Args: []string{"N"}}, "N"),
 		8: mk("[-f] [-- X...]", &ref.Decl{Opts: []ref.OptDecl{fl("f")}, Args: []string{"X"}}),
 		// a command that itself declares an option named h / help (help requests still win)
+		12: mk("[-f] [-o]", &ref.Decl{Opts: []ref.OptDecl{fl("f"), vo("o")}}),
 		9: mk("[-h] [X]", &ref.Decl{Opts: []ref.OptDecl{{Key: "h", Names: []string{"-h", "--help"}, Flag: true}}, Args: []string{"X"}}),
 	}
 }
 
 // treeRun holds what one invocation shows.
 type treeRun struct {
-	calls []string // "B:<path>", "A:<path>", "F:<path>"
-	vals  map[*tnode]func() string
+	calls   []string // "B:<path>", "A:<path>", "F:<path>"
+	vals    map[*tnode]func() string
+	initSaw map[*tnode]string // what a command's initializer saw in its parent's variables
 }
 
 type treeOpts struct {
@@ -136,7 +138,7 @@ type treeOpts struct {
 
 // buildTree declares the application for one tree shape.
 func buildTree(root *tnode, to treeOpts) (*cli.Cli, *treeRun) {
-	tr := &treeRun{vals: map[*tnode]func() string{}}
+	tr := &treeRun{vals: map[*tnode]func() string{}, initSaw: map[*tnode]string{}}
 	app := cli.App(root.aliases[0], "short "+root.aliases[0])
 	app.ErrorHandling = flowPolicies[to.rootPol]
 	if to.version {
@@ -144,6 +146,9 @@ func buildTree(root *tnode, to treeOpts) (*cli.Cli, *treeRun) {
 	}
 	var setup func(n *tnode, cmd *cli.Cmd)
 	setup = func(n *tnode, cmd *cli.Cmd) {
+		if n.parent != nil {
+			tr.initSaw[n] = tr.vals[n.parent]()
+		}
 		k := lvlKinds[to.kinds[n.slot]]
 		cmd.Spec = k.spec
 		cmd.LongDesc = "LONG description of " + n.path()
